@@ -664,6 +664,75 @@ def corr_algos(ctx, drv, pend):
                              sample={"op": algo, "kind": kind, "mode": mode, "iteration": k + 1, "of": K})
 
 
+def corr_lme(ctx, drv, pend):
+    """the glue of LossMinimizationEstimator.calc_estimate_sequence, observed through spy subclasses of the real loss / algorithm
+    classes: validation order and exception, one optimize call per data set with on_iteration_history = is_computation_time_required,
+    the projection object handed to every run, presence of computation times / detailed results, estimated_var"""
+    from quara.minimization_algorithm.projected_gradient_descent_backtracking import (
+        ProjectedGradientDescentBacktrackingResult as PRes)
+    g = ctx.npgen(15)
+    qt, c, m = L.make_qt(g, "qst", "1qubit", True)
+    true = L.true_object(g, "qst", c, m, "interior")
+    KIND = {"loss.is_option_sufficient": "lossOption", "algo.is_loss_sufficient": "algoLoss",
+            "algo.is_option_sufficient": "algoOption", "algo.is_loss_and_option_sufficient": "algoLossOption"}
+    for n in (0, 1, 3):
+        for time_req in (True, False):
+            for det_req in (True, False):
+                for cur in ("none", "installed"):
+                    fails = [(-1, 0)] + ([(int(g.integers(0, n)), k) for k in range(4)] if n else [])
+                    for fail_at, fail_kind in fails:
+                        calls, state = [], {"i": -1}
+
+                        def bad(k):
+                            return not (state["i"] == fail_at and k == fail_kind)
+
+                        class SpyLoss(L.SE):
+                            def set_from_standard_qtomography_option_data(self, *a, **k):
+                                state["i"] += 1
+                                return super().set_from_standard_qtomography_option_data(*a, **k)
+
+                            def is_option_sufficient(self):
+                                return bad(0)
+
+                        class SpyAlgo(L.PGDB):
+                            def is_loss_sufficient(self):
+                                return bad(1)
+
+                            def is_option_sufficient(self):
+                                return bad(2)
+
+                            def is_loss_and_option_sufficient(self):
+                                return bad(3)
+
+                            def optimize(self, loss, loss_option, algo_option, on_iteration_history=False):
+                                calls.append((state["i"], bool(on_iteration_history), self.func_proj))
+                                return PRes(np.array([float(state["i"])] * 3), computation_time=0.25)
+
+                        installed = qfunc_proj.proj_to_self() if cur == "installed" else None
+                        algo = SpyAlgo(installed) if installed is not None else SpyAlgo()
+                        seq = [L.fewshot_data(g, qt, true, 10) for _ in range(n)]
+                        try:
+                            r = L.LossMinimizationEstimator().calc_estimate_sequence(
+                                qt, seq, SpyLoss(qt.num_variables), L.SEO("identity"), algo, L.PGDBO(),
+                                is_computation_time_required=time_req, is_detailed_results_required=det_req)
+                            same_proj = all(cl[2] is calls[0][2] for cl in calls) if calls else True
+                            kept = (calls[0][2] is installed) if (calls and installed is not None) else True
+                            try:
+                                ev = f"opt:{int(r.estimated_var[0])}"
+                            except IndexError:
+                                ev = "indexerror"
+                            impl = ("ok", [f"opt:{int(v[0])}" for v in r.estimated_var_sequence], [cl[:2] for cl in calls],
+                                    r.computation_times is not None, r.detailed_results is not None, ev, same_proj and kept)
+                        except ValueError as e:
+                            k = [v for kk, v in KIND.items() if kk + "()" in str(e)]
+                            impl = ("err", k[0] if k else str(e))
+                        i = drv.ask("lme", n, bl(time_req), bl(det_req), cur, fail_at, fail_kind)
+                        pend.append(("lme", (n, time_req, det_req, cur, fail_at, fail_kind), impl, i))
+                        ctx.case(("lme", n, time_req, det_req, cur, fail_at, fail_kind), nontrivial=n > 0,
+                                 sample={"op": "lme", "n": n, "time": time_req, "detailed": det_req, "result": impl[0]})
+                        ctx.count(f"lme glue {impl[0]}")
+
+
 def near(a, b, lo=0.1, hi=10.0):
     """is a within a factor [lo,hi] of the threshold b (then rounding may decide the branch: not compared)"""
     return b * lo <= a <= b * hi
@@ -676,6 +745,7 @@ def correspondence(ctx):
     corr_ple(ctx, drv, pend)
     corr_dyk(ctx, drv, pend)
     corr_algos(ctx, drv, pend)
+    corr_lme(ctx, drv, pend)
     out = drv.run()
     skipped = 0
     for op, inp, impl, i in pend:
@@ -686,6 +756,22 @@ def correspondence(ctx):
         if op in ("select", "select-kept"):
             if rep not in impl:
                 ctx.disagree(op, inp, impl, rep)
+        elif op == "lme":
+            t = rep.split()
+            if impl[0] == "err":
+                ok = t[0] == "err" and t[1] == impl[1]
+            else:
+                n, time_req = inp[0], inp[1]
+                factory = "proj_to_self" if inp[3] == "installed" else "func_calc_proj_physical_with_var"
+                mvars = [] if t[1] == "-" else t[1].split(",")
+                # model entries are opt:<data set>:<history flag>:<factory of the projection handed to optimize>
+                ok = t[0] == "ok" and [":".join(v.split(":")[:2]) for v in mvars] == impl[1] \
+                    and [(int(v.split(":")[1]), v.split(":")[2] == "true") for v in mvars] == [tuple(cl) for cl in impl[2]] \
+                    and all(v.split(":")[3] == factory for v in mvars) and impl[6] \
+                    and (t[2] == "true") == impl[3] and (t[3] == "true") == impl[4] \
+                    and (":".join(t[4].split(":")[:2]) if t[4] != "indexerror" else t[4]) == impl[5]
+            if not ok:
+                ctx.disagree(op, inp, [str(x) for x in impl], rep)
         elif op == "ple":
             qt, seq, ref = impl
             got = eval_plan(rep, qt, seq)
